@@ -47,8 +47,28 @@ class C01(HistoryProperty):
 
     def gen_case(self, rng, tier):
         cfg = gen.swarm_cfg(rng, on=("dsclass",))
+        cfg["partial_bodies"] = rng.random() < 0.4  # bodies that raise for one value of one argument (still pure functions)
+        cfg["mutating_bodies"] = rng.random() < 0.3  # bodies that work in place on a section / list taken from the options
+        if cfg["mutating_bodies"]:
+            cfg["whole_section"] = cfg["lists"] = True
         spec = gen.prune(gen.gen_spec(rng, cfg))
         ops = gen_history(rng, cfg, spec)
+        if cfg["mutating_bodies"]:
+            # ... followed by the dictionary that LOOKS like what such a body leaves behind (had the body been handed the
+            # caller's own list / section, the first result would be filed under this one's fingerprint)
+            import copy as _copy
+
+            for k in range(len(ops) - 1, -1, -1):
+                if rng.random() < 0.3:
+                    o2 = _copy.deepcopy(ops[k]["o"])
+                    for key in ("L", "S"):
+                        if isinstance(o2.get(key), list):
+                            o2[key] = o2[key] + ["§mutated"]
+                        elif isinstance(o2.get(key), dict):
+                            o2[key]["§mutated"] = 1
+                            if isinstance(o2[key].get("T"), dict):
+                                o2[key]["T"]["§mutated"] = 1
+                    ops.insert(k + 1, dict(ops[k], o=o2, mut="as-left-by-an-in-place-body"))
         # derivations made from WARM datasets in the middle of the history (they share the parent's cache)
         bases = [n for n in spec["nodes"] if n["k"] == "dataset"]
         if bases and cfg["presets"] and rng.random() < 0.4:
@@ -77,6 +97,7 @@ class C01(HistoryProperty):
         with global_state_guard():
             w = World(case["spec"])
             hit_any = False
+            fell_through = False
             for i, op in enumerate(case["ops"]):
                 if op["op"] == "derive":
                     if op["node_def"]["base"] in w.prog.obj:
@@ -90,8 +111,13 @@ class C01(HistoryProperty):
                 if op["node"] not in w.prog.obj:
                     continue  # (a shrunk history may have lost the derivation this op refers to)
                 before = w.count("body")
+                raised_before = w.count("raise")
                 out = w.do(op)
                 ran = w.count("body") - before
+                if out.ok and w.count("raise") > raised_before:
+                    # a partial body raised and the evaluation still produced a value: some fall-back took over
+                    fell_through = True
+                    res.bump("ops_succeeding_after_a_body_raised")
                 t = w.twin(record=False)
                 ref = t.do(op)
                 cold_ran = t.count("body")
@@ -104,7 +130,7 @@ class C01(HistoryProperty):
                 if not out.same(ref):
                     res.violate(
                         "stale-or-divergent", op_index=i, node=op["node"], o=op["o"], warm=out.brief(), cold=ref.brief(),
-                        bodies_run_warm=ran, bodies_run_cold=cold_ran,
+                        bodies_run_warm=ran, bodies_run_cold=cold_ran, after_a_fall_back_from_a_failed_body=fell_through,
                     )
                     break
                 # second opinion on the warm world itself: caching switched off for this dictionary
@@ -116,7 +142,7 @@ class C01(HistoryProperty):
                 if not off.same(out):
                     # the statement's own yardstick: the same graph with caching switched off for this dictionary
                     res.violate("differs-from-caching-switched-off", op_index=i, node=op["node"], o=op["o"], cached=out.brief(), switched_off=off.brief(),
-                                cold_twin=ref.brief())
+                                cold_twin=ref.brief(), after_a_fall_back_from_a_failed_body=fell_through)
                     break
                 if w.mutations:
                     res.bump("input_mutations", len(w.mutations))
@@ -128,3 +154,22 @@ class C01(HistoryProperty):
             res.seen("opkinds", [op.get("mut") for op in case["ops"]])
             res.sample = self.sample_of(case)
         return res
+
+    def signature(self, case, violation):
+        d = violation.get("detail", {})
+        if d.get("after_a_fall_back_from_a_failed_body") and any(n["k"] == "coalesce" for n in case["spec"]["nodes"]) \
+                and any(n.get("fails_if") for n in case["spec"]["nodes"]):
+            # open finding: coalesce falls back when the member it chose FAILS at evaluate(), keys() names the chosen member only
+            return "fall-back-after-evaluate-failure-not-keyed"
+        return None
+
+    def known_probes(self):
+        # cached(coalesce(D1(a=Option('A')) undefined for a == 'bad', D2(b=Option('B')))): the fall-back's value is filed under {'A'}
+        spec = {"nodes": [
+            {"k": "opt", "key": "A", "id": "n0"}, {"k": "opt", "key": "B", "id": "n1"},
+            {"k": "dataset", "name": "D1", "args": {"a": "n0"}, "cache": "nocache", "fails_if": {"arg": "a", "v": "b"}, "id": "n2"},
+            {"k": "dataset", "name": "D2", "args": {"b": "n1"}, "cache": "nocache", "id": "n3"},
+            {"k": "coalesce", "members": ["n2", "n3"], "id": "n4"},
+            {"k": "cached", "inner": "n4", "id": "n5"}], "roots": ["n5"]}
+        ops = [{"op": "evaluate", "node": "n5", "o": {"A": "b", "B": 1}}, {"op": "evaluate", "node": "n5", "o": {"A": "b", "B": 2}}]
+        return [("KF-C01-coalesce-fallback-after-evaluate-failure-not-keyed", {"cfg": {}, "spec": spec, "ops": ops})]
